@@ -72,7 +72,10 @@ def cases(draw, tier, fast):
     extra = draw(st.sampled_from([0, 0, 0, 1, 2, 5, -1, -2, -7]))  # negative: fewer bits than the walk's value needs
     return {"graph": graph, "text": text, "table": draw(gens.tables(graph["k"])), "fast": fast,
             "check_kind": check_kind, "check_len": check_len, "extra": extra,
-            "salt": draw(st.integers(0, 2 ** 16)), "np_start": draw(st.sampled_from([False, False, True]))}
+            "salt": draw(st.integers(0, 2 ** 16)),
+            "np_start": draw(st.sampled_from([False, False, "int64", "int32", "uint8"])),
+            "np_lengths": draw(st.sampled_from([False, False, True])),
+            "np_str": draw(st.sampled_from([False, False, False, True]))}
 
 
 def build_check(case):
